@@ -1,4 +1,5 @@
 import Posmint.Model.ChainSpec
+import Posmint.Lemmas.ChainTouch
 /-!
 The second denomination as a frame: `setBal2` / `send2` / `rewardFromFees2` change `bal2` and nothing else, and
 neither `WF` nor `Inv` mentions `bal2` / `supply2`.  Every lemma tree about the staking coin imports this file and
